@@ -80,6 +80,11 @@ func (s *httpProxy) Handle(ctx context.Context, conn net.Conn) error {
 			return err
 		}
 
+		if _, ok := req.Header["User-Agent"]; !ok {
+			// Request.Write would add net/http's own User-Agent to a request that has none
+			req.Header.Set("User-Agent", "")
+		}
+
 		reqBody := &bytes.Buffer{}
 
 		dsw := io.MultiWriter(conn2, reqBody)
